@@ -19,7 +19,7 @@ EXPLANATION = (
     '(the final tree is deeper than anything a grouping pass walked). Not decided: C-level stack exhaustion, '
     'MemoryError, behaviour at particular recursion limits.')
 
-ENTRY = ['sqlparse.parse', 'sqlparse.parsestream', 'sqlparse.split', 'sqlparse.format', 'sqlparse.cli.main']
+ENTRY = ['sqlparse.parse', 'sqlparse.parsestream', 'sqlparse.split', 'sqlparse.format', 'sqlparse.cli.main', 'sqlparse.lexer.tokenize']
 
 
 def run(ctx):
